@@ -182,6 +182,144 @@ def gen_double_bits(rng, cov):
     return (sgn << 63) | (e << 52) | m, sgn, e, m
 
 
+
+# ---------------------------------------------------------------- deterministic boundary families (same on every run and for every seed)
+P89, P107 = 2**89 - 1, 2**107 - 1          # Mersenne primes: multi-limb operands with known factorisation
+
+
+def partitions(k):
+    """all aliasing patterns of k parameters as restricted-growth digit strings: '0123', '0120', ..., '0000'"""
+    out = [[0]]
+    for _ in range(k - 1):
+        out = [p + [d] for p in out for d in range(max(p) + 2)]
+    return ["".join(str(d) for d in p) for p in out]
+
+
+def shared_factor_pairs():
+    """canonical pairs (x, y, sign) whose denominators share d1 > 1 and whose cross term t = n1*(dy/d1) + sign*n2*(dx/d1)
+    shares a factor with d1 (the second gcd of the Knuth addition is needed), small and multi-limb; with results that are
+    zero, integers, or proper fractions.  Returned with d2 = gcd(t, d1) so that the check can count them."""
+    out = []
+    shapes = [(6, 1, 1, 2), (6, 1, 1, 3), (6, 1, 5, 3), (12, 5, 7, 2), (12, 1, 1, 3), (4, 1, 3, 2), (9, 2, 1, 3), (10, 3, 7, 5), (30, 1, 1, 5),
+              (30, 7, 11, 3), (2**64, 1, 3, 2), (3 * 2**33, 5, 7, 3), (6 * P89, 1, P107, P89), (2 * P89 * P107, 1, 1, P107),
+              (P89 * P107, 2, 3, P89), (2**130, 3, 5, 2)]
+    for d1, a, b, g in shapes:
+        dx, dy = d1 * a, d1 * b
+        for sign in (1, -1):
+            found = 0
+            for n1 in (1, -1, 5, -7, 11, 13, -17, 2**64 + 1, -(P107 + 2)):
+                if gcd(n1, dx) != 1:
+                    continue
+                if gcd(a, g) != 1:
+                    continue
+                n20 = (-sign * n1 * b * pow(a, -1, g)) % g
+                for k in (0, -1, 1, 2, -2, 3):
+                    n2 = n20 + k * g
+                    if n2 == 0 or gcd(n2, dy) != 1:
+                        continue
+                    t = n1 * b + sign * n2 * a
+                    d2 = gcd(t, d1)
+                    if d2 > 1:
+                        out.append(((n1, dx), (n2, dy), sign, d2))
+                        found += 1
+                        break
+                if found >= 3:
+                    break
+        # the result is zero (two distinct objects of equal value) / exactly one / an integer
+        n1 = 5 if gcd(5, dx) == 1 else 7
+        if gcd(n1, dx) == 1:
+            out.append(((n1, dx), (n1, dx), -1, dx))                     # x - x = 0 through the gcd branch: gcd(0, d1) = d1
+            out.append(((n1, dx), (-n1, dx), 1, dx))                     # x + (-x) = 0
+            if gcd(dx - n1, dx) == 1:
+                out.append(((n1, dx), (dx - n1, dx), 1, dx))             # = 1
+                out.append(((n1, dx), (n1 - 3 * dx, dx), -1, dx))        # = 3
+    return out
+
+
+def cross_factor_pairs():
+    """canonical pairs for * and /: num x shares a factor with den y AND den x shares a factor with num y (both gcds of the
+    reduced product are > 1); products that are +-1 or integers; equal denominators; small and multi-limb"""
+    out = []
+    for p, q in [(2, 3), (6, 35), (4, 9), (2**64 + 13, 2**64 - 59), (P89, P107), (2**70, 3**40), (10, 21)]:
+        for u, v, w, z in [(1, 1, 1, 1), (5, 7, 11, 13), (-5, 7, 11, 13), (5, 7, -11, 13), (-1, 1, -1, 1), (3, 1, 1, 3), (P89 + 2, 1, 1, P107 + 2)]:
+            x, y = (p * u, q * v), (q * w, p * z)
+            if gcd(*x) == 1 and gcd(*y) == 1:
+                out.append((x, y))
+        x = canon(p, q)
+        out += [(x, canon(q, p)), (x, canon(-q, p)), (x, x), (x, canon(-p, q)), (x, canon(q * 5, 1)), (canon(q * 5, 1), canon(1, q)),
+                (x, canon(p + q, q)), (canon(-p, q), canon(-(p + q), q))]          # the last two: equal denominators
+    return out
+
+
+def rounding_boundaries():
+    """exact halves, nearest neighbours of a half, exact integers, each sign, denominators of 1..3 limbs"""
+    out = []
+    for d in (2, 4, 6, 10, 2**63, 2**64, 2**64 + 2, 2 * P89, 2**128, 3, 7, 2**64 + 1, P89, P107):
+        for k in (0, 1, 2, 7, 2**64 - 1, 2**64, P89):
+            cands = [k * d, k * d + 1, (k + 1) * d - 1]
+            if d % 2 == 0:
+                cands += [k * d + d // 2, k * d + d // 2 - 1, k * d + d // 2 + 1]
+            else:
+                cands += [k * d + (d - 1) // 2, k * d + (d + 1) // 2]
+            for n in cands:
+                for s in (1, -1):
+                    out.append(canon(s * n, d))
+    seen, res = set(), []
+    for r in out:
+        if r not in seen:
+            seen.add(r); res.append(r)
+    return res
+
+
+def mpz_get_d(n):
+    a = abs(n); bl = a.bit_length()
+    if bl > 53:
+        a = (a >> (bl - 53)) << (bl - 53)        # mpz_get_d truncates toward zero
+    return -float(a) if n < 0 else float(a)
+
+def f32(xd):
+    return struct.unpack("<f", struct.pack("<f", xd))[0]
+
+def conv_float_cases(add, x):
+    """operator double / float / QField::convert: oracle = mpz_get_d truncation of both members, then ONE IEEE division
+    (python floats are binary64 with round-to-nearest-even; binary32 through struct); model = to_double / to_float"""
+    if abs(x[0]) >= 2**1024 or x[1] >= 2**1024:
+        return
+    dn, dd = mpz_get_d(x[0]), mpz_get_d(x[1])
+    try:
+        qd = dn / dd
+    except OverflowError:
+        qd = float("inf") if (x[0] > 0) else float("-inf")
+    for v in ("conv.double", "q.convert.double"):
+        add(v, 1, flat(x), "to_double", flat(x), "raw", "%016x" % struct.unpack("<Q", struct.pack("<d", qd))[0])
+    try:
+        fn, fd = f32(dn), f32(dd)
+    except OverflowError:
+        return
+    try:
+        fv = f32(fn / fd)
+    except OverflowError:
+        fv = float("inf") if x[0] > 0 else float("-inf")
+    for v in ("conv.float", "q.convert.float"):
+        add(v, 1, flat(x), "to_float", flat(x), "raw", "%08x" % struct.unpack("<I", struct.pack("<f", fv))[0])
+
+
+def rt_in_domain(red, e, m, lim=1024):
+    """Rational(x) -> (double) gives x back only while the stored denominator converts to a finite double (< 2^1024):
+    mpz_get_d of a larger member is documented as system dependent (infinity here, so the quotient is 0).  The stored
+    denominator is 2^(1075-e) divided by the power of two in the significand (Reduce) or as it is (NoReduce)."""
+    sh = 1075 - max(e, 1)
+    if sh <= 0:
+        return True
+    if not red:
+        return sh < lim
+    M = m + ((1 << 52) if e else 0)
+    if M == 0:
+        return True
+    tz = (M & -M).bit_length() - 1
+    return sh - min(tz, sh) < lim
+
+
 def fr(r):
     return Fraction(r[0], r[1])
 
@@ -300,6 +438,8 @@ def build_cases(rng, tier, cov, sweep=True):
         red = 0 if i % 7 == 0 else 1
         for v in ("ctor.double", "q.init.double"):
             add(v, red, ["%016x" % bits], "of_double", [sgn, e, m], "rat", Fraction(x))
+        if rt_in_domain(red, e, m):
+            add("rt.double", red, ["%016x" % bits], "rt_double", [sgn, e, m], "raw", "%016x" % (bits if (e or m) else 0))
     for i in range(per * 2):
         k = rng.below(6)
         fb = [rng.bits(32), rng.choice([0, 0x80000000, 1, 0x80000001, 0x007fffff, 0x807fffff, 0x00800000, 0x7f7fffff, 0xff7fffff, 0x3f800000, 0xbf800000]),
@@ -312,6 +452,8 @@ def build_cases(rng, tier, cov, sweep=True):
         sgn, e, m = bits >> 63, (bits >> 52) & 0x7ff, bits & ((1 << 52) - 1)
         cov["float: " + ("subnormal/zero" if (fb >> 23) & 0xff == 0 else "normal")] = cov.get("float: " + ("subnormal/zero" if (fb >> 23) & 0xff == 0 else "normal"), 0) + 1
         add("q.init.float", 0 if i % 7 == 0 else 1, ["%08x" % fb], "of_double", [sgn, e, m], "rat", Fraction(f))
+        if rt_in_domain(0 if i % 7 == 0 else 1, e, m, 128):
+            add("rt.float", 0 if i % 7 == 0 else 1, ["%08x" % fb], "rt_float", [sgn, e, m], "raw", "%08x" % (fb if (fb & 0x7fffffff) else 0))
     # ---- copies, unary operations, predicates, rounding
     for i in range(per):
         x = gen_rat(rng, 1, cov)
@@ -423,7 +565,7 @@ def build_cases(rng, tier, cov, sweep=True):
     B = 2**64
     reps0 = [(0, 1), (1, 1), (-1, 1), (5, 1), (-7, 1), (B + 1, 1), (3, 7), (-9, 4), (B * B + 1, 2 * B + 3), (1, 3), (-1, 2), (-(B + 2), 3 * B)]
     reps = [canon(*r) for r in reps0]
-    for red in ((1, 0) if tier != "quick" else (1,)):
+    for red in (1, 0):
         if red == 0:
             reps = reps0 + [(6, 4), (-B, 2 * B)]      # unreduced operands are legal in NoReduce mode
         for x in reps:
@@ -513,6 +655,9 @@ def build_cases(rng, tier, cov, sweep=True):
                 for v in ("ctor.double", "q.init.double"):
                     for red in (1, 0):
                         add(v, red, ["%016x" % bits], "of_double", [sgn, e, m], "rat", Fraction(xd))
+                for red in (1, 0):
+                    if rt_in_domain(red, e, m):
+                        add("rt.double", red, ["%016x" % bits], "rt_double", [sgn, e, m], "raw", "%016x" % (bits if (e or m) else 0))
     for eb in (0, 1, 2, 126, 127, 128, 253, 254):
         for m in (0, 1, 2**22, 2**23 - 1):
             for sgn in (0, 1):
@@ -520,15 +665,9 @@ def build_cases(rng, tier, cov, sweep=True):
                 f = struct.unpack("<f", struct.pack("<I", fb))[0]
                 bits = struct.unpack("<Q", struct.pack("<d", f))[0]
                 add("q.init.float", 1, ["%08x" % fb], "of_double", [bits >> 63, (bits >> 52) & 0x7ff, bits & ((1 << 52) - 1)], "rat", Fraction(f))
+                if rt_in_domain(1, (bits >> 52) & 0x7ff, bits & ((1 << 52) - 1), 128):
+                    add("rt.float", 1, ["%08x" % fb], "rt_float", [bits >> 63, (bits >> 52) & 0x7ff, bits & ((1 << 52) - 1)], "raw", "%08x" % (fb if (fb & 0x7fffffff) else 0))
     # ---- conversions, printing, residue
-    def mpz_get_d(n):
-        a = abs(n); bl = a.bit_length()
-        if bl > 53:
-            a = (a >> (bl - 53)) << (bl - 53)        # mpz_get_d truncates toward zero
-        return -float(a) if n < 0 else float(a)
-
-    def f32(xd):
-        return struct.unpack("<f", struct.pack("<f", xd))[0]
     INTT = [("conv.int", I32MIN, I32MAX), ("conv.int64", I64MIN, I64MAX), ("q.convert.int64", I64MIN, I64MAX), ("conv.uint64", 0, U64MAX), ("conv.uint32", 0, U32MAX),
             ("conv.short", -2**15, 2**15 - 1), ("conv.uint16", 0, 2**16 - 1), ("conv.uint8", 0, 255), ("conv.schar", -128, 127)]
     for i in range(per):
@@ -544,14 +683,7 @@ def build_cases(rng, tier, cov, sweep=True):
         x = gen_rat(rng, 1, cov)
         if rng.chance(1, 3):
             x = canon(rng.bits(rng.range(1, 80)) * rng.choice([1, -1]), (rng.bits(rng.range(1, 80)) or 1))
-        dn, dd = mpz_get_d(x[0]), mpz_get_d(x[1])
-        for v in ("conv.double", "q.convert.double"):
-            add(v, 1, flat(x), "skip", [], "raw", "%016x" % struct.unpack("<Q", struct.pack("<d", dn / dd))[0])
-        try:
-            fv = f32(f32(dn) / f32(dd))
-            add("conv.float", 1, flat(x), "skip", [], "raw", "%08x" % struct.unpack("<I", struct.pack("<f", fv))[0])
-        except (OverflowError, ZeroDivisionError):
-            pass
+        conv_float_cases(add, x)
         add("conv.string", 1, flat(x), "string", flat(x), "raw", "%d/%d" % x)
         for v in ("print", "op<<", "q.write"):
             add(v, 1, flat(x), "print", flat(x), "raw", ("%d/%d" % x) if x[1] > 1 else "%d" % x[0])
@@ -586,7 +718,175 @@ def build_cases(rng, tier, cov, sweep=True):
         add("q.maxpyin.alias_rb", red, a3, "q_maxpyin", flat(x, y, x), "rat", fx - fy * fx)
         add("q.axmyin", red, a3, "q_axmyin", a3, "rat", fy * fz - fx)
         add("q.axmyin.alias_ra", red, a3, "q_axmyin", flat(x, x, z), "rat", fx * fz - fx)
+    if sweep:
+        boundary_cases(add, rng, tier, cov)
     return cases
+
+
+QW3 = {"add": ("add", lambda a, b: a + b), "sub": ("sub", lambda a, b: a - b), "mul": ("mul", lambda a, b: a * b), "div": ("div", lambda a, b: a / b)}
+QW4 = {"axpy": ("q_axpy", lambda a, b, c: a * b + c), "maxpy": ("q_maxpy", lambda a, b, c: c - a * b), "axmy": ("q_axmy", lambda a, b, c: a * b - c)}
+QWI3 = {"axpyin": ("q_axpyin", lambda r, a, b: r + a * b), "maxpyin": ("q_maxpyin", lambda r, a, b: r - a * b), "axmyin": ("q_axmyin", lambda r, a, b: a * b - r)}
+QWI2 = {"addin": ("addin", lambda r, a: r + a), "subin": ("subin", lambda r, a: r - a), "mulin": ("mulin", lambda r, a: r * a), "divin": ("divin", lambda r, a: r / a)}
+QWU = {"neg": ("q_neg", lambda a: -a), "inv": ("q_inv", lambda a: 1 / a), "assign": ("pos", lambda a: a)}
+QW_ARITY = dict([(k, 3) for k in QW3] + [(k, 4) for k in QW4] + [(k, 3) for k in QWI3] + [(k, 2) for k in QWI2] + [(k, 2) for k in QWU])
+
+
+def qw_case(add, op, pat, vals, red):
+    """one call of the QField wrapper `op` with aliasing pattern `pat`; vals[k] = value held by object k"""
+    v = [vals[int(c)] for c in pat]          # value seen by each parameter
+    variant = "qw.%s.%s" % (op, pat)
+    try:
+        if op in QW3:
+            ins = v[1:]; mop, f = QW3[op]; margs = flat(*ins); exp = f(*[fr(t) for t in ins])
+        elif op in QW4:
+            ins = v[1:]; mop, f = QW4[op]; margs = flat(*ins); exp = f(*[fr(t) for t in ins])
+        elif op in QWI3:
+            ins = v; mop, f = QWI3[op]; margs = flat(*ins); exp = f(*[fr(t) for t in ins])
+        elif op in QWI2:
+            ins = v; mop, f = QWI2[op]; al = 1 if pat[0] == pat[1] else 0
+            margs = [al] + (flat(v[0]) if al else flat(*ins)); exp = f(*[fr(t) for t in ins])
+        else:
+            ins = v[1:]; mop, f = QWU[op]
+            if op == "inv":
+                if ins[0][0] == 0:
+                    return                      # inv(0) is outside the domain (no exception unless __GIVARO_DEBUG)
+                margs = [1 if pat[0] == pat[1] else 0] + flat(*ins)
+            else:
+                margs = flat(*ins)
+            exp = f(*[fr(t) for t in ins])
+        kind = "rat"
+    except ZeroDivisionError:
+        kind, exp = "throw", None
+    # model side: the wrapper executed on a store of objects with the same aliasing pattern (Model.exec_*)
+    add(variant, red, flat(*ins), "qw:%s:%s" % (op, pat), flat(*ins), kind, exp, site="QField<Rational>::%s (aliasing pattern r,a,b,c = %s)" % (op, pat))
+
+
+def boundary_cases(add, rng, tier, cov):
+    """deterministic families: every wrapper x every aliasing pattern; operands that need the second gcd; cross factors;
+    rounding boundaries; stored forms that only NoReduce mode produces"""
+    F = canon
+    base = [(F(1, 6), F(1, 3), F(1, 2), F(-1, 6)), (F(5, 6), F(1, 6), F(7, 12), F(1, 4)), (F(2, 3), F(3, 4), F(1, 5), F(5, 7)),
+            (F(1, 2), F(1, 2), F(-1, 4), F(3, 4)), (F(0, 1), F(3, 4), F(1, 5), F(2, 1)), (F(3, 4), F(0, 1), F(0, 1), F(1, 1)),
+            (F(1, 1), F(-1, 1), F(1, 2), F(-1, 2)), (F(-1, 1), F(5, 6), F(5, 6), F(1, 1)), (F(3, 1), F(-7, 1), F(2, 1), F(1, 3)),
+            (F(P89, P107), F(P107, P89), F(1, P107), F(-1, P89)), (F(P107 + 1, 2 * P89 * P107), F(1, 2 * P89 * P107), F(2 * P89, 1), F(-1, 2 * P107)),
+            (F(2**64 + 1, 3 * 2**64), F(-(2**64 - 1), 3 * 2**64), F(3, 2**65), F(2**64, 3))]
+    tuples = []
+    for t in base:
+        for k in range(4):
+            tuples.append(t[k:] + t[:k])
+    n_alias = 0
+    for op, k in sorted(QW_ARITY.items()):
+        for pat in partitions(k):
+            vs = list(tuples) if k > 2 else tuples[::2]
+            for j in range(3):
+                vs.append(tuple(gen_rat(rng, 1, {}) for _ in range(4)))
+            for vals in vs:
+                qw_case(add, op, pat, vals, 1)
+                n_alias += 1
+            for vals in tuples[1::5]:
+                qw_case(add, op, pat, vals, 0)
+                u = tuple((t[0] * 6, t[1] * 6) if t[0] else t for t in vals)      # unreduced operands (legal in NoReduce mode)
+                qw_case(add, op, pat, u, 0)
+    cov["wrapper x aliasing-pattern calls (all set partitions of the parameters)"] = n_alias
+    cov["aliasing patterns per wrapper"] = dict((op, len(partitions(k))) for op, k in sorted(QW_ARITY.items()))
+    # ---- second gcd of the Knuth addition / subtraction
+    one = (1, 1)
+    sf = shared_factor_pairs()
+    cov["pairs with gcd(dx,dy) > 1 and gcd(cross term, d1) > 1 (deterministic)"] = len(sf)
+    cov["  of which multi-limb"] = sum(1 for x, y, sg_, d2 in sf if x[1] >= 2**64)
+    cov["  of which result zero or integer"] = sum(1 for x, y, sg_, d2 in sf if (fr(x) + sg_ * fr(y)).denominator == 1)
+    for x, y, sgn_, d2 in sf:
+        fx, fy = fr(x), fr(y)
+        res = fx + sgn_ * fy
+        sym, mop, qn = ("+", "add", "add") if sgn_ == 1 else ("-", "sub", "sub")
+        add("op" + sym, 1, flat(x, y), mop, flat(x, y), "rat", res)
+        add("op" + sym + "=", 1, flat(x, y), mop + "in", [0] + flat(x, y), "rat", res)
+        qw_case(add, qn, "012", ((7, 5), x, y, one), 1)
+        qw_case(add, qn, "001", (x, y, one, one), 1)
+        qw_case(add, qn, "010", (y, x, one, one), 1)
+        qw_case(add, qn + "in", "01", (x, y, one, one), 1)
+        inop = "axpyin" if sgn_ == 1 else "maxpyin"
+        qw_case(add, inop, "012", (x, y, one, one), 1)
+        qw_case(add, inop, "012", (x, one, y, one), 1)
+        if sgn_ == 1:
+            qw_case(add, "axpy", "0123", ((7, 5), y, one, x), 1)
+            qw_case(add, "axpy", "0120", (x, y, one, one), 1)          # r = c
+            qw_case(add, "axpy", "0012", (y, one, x, one), 1)          # r = a
+        else:
+            qw_case(add, "maxpy", "0123", ((7, 5), y, one, x), 1)
+            qw_case(add, "maxpy", "0120", (x, y, one, one), 1)
+            qw_case(add, "axmy", "0123", ((7, 5), x, one, y), 1)
+            qw_case(add, "axmy", "0120", (y, x, one, one), 1)
+            qw_case(add, "axmyin", "012", (y, x, one, one), 1)
+        # the same pair inside a sequence on one object: x (op) y, then back
+        back = "s" if sgn_ == 1 else "a"
+        toks = [("a" if sgn_ == 1 else "s"), y[0], y[1], back, y[0], y[1], ("qa" if sgn_ == 1 else "qs"), y[0], y[1]]
+        add("seq", 1, flat(x) + toks, "seq", flat(x) + toks, "ratc", res)
+    # ---- both gcds of the reduced product / quotient
+    cf = cross_factor_pairs()
+    cov["pairs with gcd(num x, den y) > 1 and gcd(den x, num y) > 1 (deterministic)"] = len(cf)
+    for x, y in cf:
+        fx, fy = fr(x), fr(y)
+        add("op*", 1, flat(x, y), "mul", flat(x, y), "rat", fx * fy)
+        add("op*=", 1, flat(x, y), "mulin", [0] + flat(x, y), "rat", fx * fy)
+        for pat, vals in (("012", ((7, 5), x, y, one)), ("001", (x, y, one, one)), ("010", (y, x, one, one))):
+            qw_case(add, "mul", pat, vals, 1)
+        qw_case(add, "mulin", "01", (x, y, one, one), 1)
+        qw_case(add, "axpy", "0123", ((7, 5), x, y, (0, 1)), 1)
+        qw_case(add, "axpyin", "012", ((0, 1), x, y, one), 1)
+        if y[0] != 0:
+            yi = canon(y[1], y[0])
+            add("op/", 1, flat(x, yi), "div", flat(x, yi), "rat", fx * fy)
+            add("op/=", 1, flat(x, yi), "divin", [0] + flat(x, yi), "rat", fx * fy)
+            for pat, vals in (("012", ((7, 5), x, yi, one)), ("001", (x, yi, one, one)), ("010", (yi, x, one, one))):
+                qw_case(add, "div", pat, vals, 1)
+            qw_case(add, "divin", "01", (x, yi, one, one), 1)
+    # ---- conversions to double / float: truncation of members wider than 53 bits, subnormal and largest results, both signs
+    cb = []
+    for n, d in [(2**53 + 1, 1), (2**54 + 3, 1), (2**54 + 3, 3), (2**53 - 1, 2), (2**1023, 1), (2**1024 - 1, 1), (1, 2**1024 - 1), (1, 2**1023), (3, 2**1023),
+                 (2**53 - 1, 2**1023), (2**52 + 1, 2**1023), (1, 3), (2, 3), (1, 10), (2**64 + 1, 2**64 - 1), (P107, P89), (P89, P107), (5, 1), (2**24 + 1, 1),
+                 (2**25 + 3, 1), (2**25 + 1, 3), (2**128 - 2**104, 1), (2**128 - 2**103, 1), (1, 2**127), (1, 2**128 - 2**104), (3, 2**127), (2**24 - 1, 2**127),
+                 (2**127 + 1, 2**127 - 1), (1, 2**149), (1, 2**150 + 1), (7, 2**1074 // 2**52 * 5), (2**200 + 1, 2**1000 + 1), (2**1000 + 1, 2**200 + 1),
+                 (3**400, 5**250), (5**250, 3**400), (2**1020 + 2**960, 3), (3, 2**1020 + 2**960)]:
+        if gcd(n, d) == 1:
+            cb += [(n, d), (-n, d)]
+    cb.append((0, 1))
+    cov["conversion-to-floating-point boundary fractions (deterministic)"] = len(cb)
+    for x in cb:
+        conv_float_cases(add, x)
+    # ---- rounding boundaries
+    rb = rounding_boundaries()
+    cov["rounding boundary fractions (halves, neighbours of halves, integers; 1..3 limbs; both signs)"] = len(rb)
+    for w in rb:
+        fw = fr(w)
+        add("floor", 1, flat(w), "floor", flat(w), "raw", str(fw.numerator // fw.denominator))
+        add("ceil", 1, flat(w), "ceil", flat(w), "raw", str(-((-fw.numerator) // fw.denominator)))
+        add("trunc", 1, flat(w), "trunc", flat(w), "raw", str(trunc0(fw)))
+        add("round", 1, flat(w), "round", flat(w), "raw", str(round_away(fw)))
+        if I64MIN <= trunc0(fw) <= I64MAX:
+            add("conv.int64", 1, flat(w), "conv_int", flat(w), "raw", str(trunc0(fw)))
+    # ---- stored forms that only NoReduce mode produces (0/d, k*n/k*d): the order must still be that of Q
+    B = 2**64
+    nc = [(0, 4), (0, 1), (0, B), (2, 4), (1, 2), (3, 6), (-2, 4), (-1, 2), (6, 4), (3, 2), (2 * B, 4 * B), (-2 * B, 4 * B), (B * B, 2 * B * B), (B + 1, 2 * B + 2),
+          (1, 3), (-7, 21), (5, 1), (10, 2), (-10, 2), (3 * P89, 3 * P107), (P89, P107)]
+    for u in nc:
+        for w in nc:
+            fu, fw = fr(u), fr(w)
+            zero_nc = (u[0] == 0 and u[1] != 1) or (w[0] == 0 and w[1] != 1)
+            # absCompare on a zero stored as 0/d compares the denominators (Properties: C10_absCompare_needs_normalised_zero); compare() never calls it then
+            add("cmpall", 0, flat(u, w), "cmpall", flat(u, w), "cmp", (sg(fu - fw), None if zero_nc else sg(abs(fu) - abs(fw))))
+    cov["non-canonical stored forms compared pairwise (NoReduce)"] = len(nc) ** 2
+    # in-place subtraction / addition in NoReduce mode produces 0/d: a later operation in Reduce mode must cope with the value (not required canonical)
+    # ---- misc members, domain constants, random elements, element reader
+    for x in [(0, 1), (1, 1), (-1, 1), (5, 6), (-5, 6), (B, 1), (-B, 3), (B * B - 1, B * B * B + 1), (-(B - 1), B - 2)]:
+        lim = lambda v: 0 if v == 0 else (abs(v).bit_length() + 63) // 64
+        ln = 8 * (lim(x[0]) + lim(x[1]))
+        add("misc", 1, flat(x), "skip", [], "raw", "%d %d %d %d" % (ln, ln, sg(x[0]), sg(x[0])))
+    add("q.consts2", 1, [], "skip", [], "raw", "0 1 1 1 -1 1 0 0 0 0 1 0", nontrivial=False)
+    for bnd in [(1000, 999), (10**27, 10**35 - 1), (-(B + 5), 6 * B)]:
+        add("q.random", 1, flat(bnd), "skip", [], "canonlist", None)
+    for txt, n, hasden, d in [("6_/_-4", 6, 1, -4), ("-0/5", 0, 1, 5), ("12", 12, 0, 1), ("%d/%d" % (6 * P89, 4 * P89), 6 * P89, 1, 4 * P89), ("-7_/21_", -7, 1, 21)]:
+        add("q.read", 1, [txt], "of_text", [n, hasden, d], "ratc", Fraction(n, d))
 
 
 # directed cases for the recorded defects and their neighbourhood (always run first)
@@ -621,18 +921,62 @@ def directed_cases():
     return cs
 
 
+# ---------------------------------------------------------------- constants the theorems depend on, read from the source on every run
+def source_tie(chk):
+    """C10_ctor_double_every_finite_double_exact is a theorem about the decoder constants of Model.of_double.  Read the
+    constants of Rational::Rational(double) from /repo's current givratcstor.C and the ones of the model from Model.v;
+    any difference means the theorem is no longer about this source.  A source that cannot be matched any more (rewritten
+    constructor) is recorded as inconclusive, not as a violation: the oracle still judges every class of doubles."""
+    import re
+    tie = {}
+    try:
+        src = open(os.path.join(vf.REPO, "src/kernel/rational/givratcstor.C")).read()
+        mod = open(os.path.join(vf.coq_dir(AREA), "Model.v")).read()
+    except OSError as ex:
+        chk.cov["source_tie"] = "unreadable: %s" % ex
+        return
+    body = src[src.find("Rational::Rational(double x)"):]
+    body = body[:body.find("Rational::Rational(Neutral")]
+    pats = {"exponent bias shift (1075 - exponent)": (r"shift\s*=\s*(\d+)\s*-\s*t\.u\.exponent", r"let shift := (\d+) - e in"),
+            "subnormal divisor 2^k": (r"Integer\(1\)\s*<<\s*(\d+)\s*\)", r"Z\.shiftl 1 (\d+)\)\) red s"),
+            "hidden bit": (r"(\d+)_ui64", r"let tt := m \+ (\d+) in")}
+    fields = dict((k, re.search(k + r"\s*:\s*(\d+)", src)) for k in ("mantissa", "exponent", "negative"))
+    tie["ieee bit-field widths in the source"] = dict((k, int(v.group(1)) if v else None) for k, v in fields.items())
+    want_fields = {"mantissa": 52, "exponent": 11, "negative": 1}
+    bad = []
+    for name, (ps, pm) in pats.items():
+        vs, vm = sorted(set(re.findall(ps, body))), sorted(set(re.findall(pm, mod)))
+        tie[name] = {"source": vs, "model": vm}
+        if not vs or not vm:
+            chk.cov.setdefault("inconclusive", []).append("source tie: pattern for '%s' not found (source %s, model %s)" % (name, vs, vm))
+        elif vs != vm:
+            bad.append("%s: source %s, model %s" % (name, vs, vm))
+    if all(fields.values()) and tie["ieee bit-field widths in the source"] != want_fields:
+        bad.append("bit-field widths %s, the theorem quantifies over %s" % (tie["ieee bit-field widths in the source"], want_fields))
+    chk.cov["source_tie"] = tie
+    chk.count(("source tie", "double decoder constants"), nontrivial=True)
+    if bad:
+        chk.broke("constants of Rational(double) in givratcstor.C differ from the ones C10_ctor_double_every_finite_double_exact is proved for", "; ".join(bad))
+
+
 # ---------------------------------------------------------------- evaluation
 def run_cases(chk, cases, himpl, drv):
     impl_in = "".join("%s %d %s\n" % (c["variant"], c["red"], " ".join(c["iargs"])) for c in cases)
     model_in = "".join("%s %d %s\n" % (c["mop"], c["red"], " ".join(c["margs"])) for c in cases)
-    rc, iout, ierr = vf.run_lines(himpl, impl_in, timeout=1500)
+    rc, iout, ierr = vf.run_lines(himpl, impl_in, timeout=3000)
+    if rc == 124:
+        chk.cov.setdefault("inconclusive", []).append("implementation harness timed out on %d cases (machine load); stream not judged" % len(cases))
+        return 0
     if rc != 0 or len(iout) != len(cases):
         chk.broke("implementation harness failed (rc=%s, %d/%d lines)" % (rc, len(iout), len(cases)), ierr)
         return 0
     mout = None
     if drv:
-        rc, mout, merr = vf.run_lines(drv, model_in, timeout=2400)
-        if rc != 0 or len(mout) != len(cases):
+        rc, mout, merr = vf.run_lines(drv, model_in, timeout=3000)
+        if rc == 124:
+            chk.cov.setdefault("inconclusive", []).append("extracted-model driver timed out on %d cases (machine load); correspondence not judged, oracle verdicts kept" % len(cases))
+            mout = None
+        elif rc != 0 or len(mout) != len(cases):
             chk.broke("model driver failed (rc=%s, %d/%d lines)" % (rc, len(mout), len(cases)), merr)
             mout = None
     ncorr = 0
@@ -692,6 +1036,19 @@ def judge(c, got):
         elif (k == "ratc" or c["red"] == 1) and (n, d) != (f.numerator, f.denominator):
             out.append((site, klass, rs(f), "result not in canonical form"))
         return out
+    if k == "canonlist":
+        t = got.split()
+        if "BAD-ZERO" in t or len(t) % 2 or not t:
+            return [(site, klass, "canonical non-zero elements", "nonzerorandom returned zero / unparsable")]
+        try:
+            for i in range(0, len(t), 2):
+                n, d = int(t[i]), int(t[i + 1])
+                if d <= 0 or gcd(n, d) != 1:
+                    out.append((site, klass, "%d %d" % canon(n, d if d else 1), "random element %d/%d is not in canonical form" % (n, d)))
+                    break
+        except ValueError:
+            return [(site, klass, "canonical elements", "unparsable")]
+        return out
     if k == "raw":
         if got != c["exp"]:
             out.append((site, klass, c["exp"], "differs from the specification"))
@@ -706,7 +1063,7 @@ def judge(c, got):
             return [(site, klass, str(c["exp"]), "unparsable")]
         if sg(cv) != s:
             out.append(("compare(const Rational&, const Rational&)", "", str(s), "sign of compare() is not the sign of a-b"))
-        if sg(av) != sa:
+        if sa is not None and sg(av) != sa:
             out.append(("absCompare(const Rational&, const Rational&)", "", str(sa), "sign of absCompare() is not the sign of |a|-|b|"))
         for name, v, truth in (("==", eq, s == 0), ("!=", ne, s != 0), ("<=", le, s <= 0), (">=", ge, s >= 0)):
             if bool(v) != truth:
@@ -749,9 +1106,11 @@ def main(tier, replay=None):
         return chk.finish()
     # 2b. compile probe: the six operators on two Rationals must resolve under ISO C++ (no g++ extension)
     probe = os.path.join(vf.ROOT, "harness", "c10_probe_ops.C")
-    rcp, outp = vf.sh([vf.CXX, "-std=gnu++11", "-DHAVE_CONFIG_H", "-fsyntax-only", "-pedantic-errors"] + vf.inc_flags() + [probe], timeout=300)
+    rcp, outp = vf.sh([vf.CXX, "-std=gnu++11", "-DHAVE_CONFIG_H", "-fsyntax-only", "-pedantic-errors"] + vf.inc_flags() + [probe], timeout=900)
     chk.count(("probe", "operators"), nontrivial=True)
-    if rcp != 0:
+    if rcp == 124:
+        chk.cov.setdefault("inconclusive", []).append("compile probe timed out (machine load)")
+    elif rcp != 0:
         amb = [l for l in outp.splitlines() if "error" in l]
         ops = sorted(set(o for o in ("<=", ">=", "==", "!=", "<", ">") for l in outp.splitlines()
                          if ("operator" + o + "(" in l.replace(" ", "")) and "candidate" in l))
@@ -761,6 +1120,7 @@ def main(tier, replay=None):
         else:
             chk.fail_input("Rational comparison operators (compile probe)", "", {"variant": "compile probe harness/c10_probe_ops.C", "red": 1, "args": [], "model_op": "-", "model_args": [], "kind": "raw", "exp": "compiles"},
                            "compiles", outp[-1500:], "the six operators on two Rationals do not compile with -pedantic-errors")
+    source_tie(chk)
     # 3. cases
     cov = {}
     if replay:
@@ -777,6 +1137,8 @@ def main(tier, replay=None):
                 cases[-1].update(kind="cmp", exp=eval(c["exp"], {"__builtins__": {}}))
             elif c["kind"] == "throw":
                 cases[-1].update(kind="throw", exp=None)
+            elif c["kind"] == "canonlist":
+                cases[-1].update(kind="canonlist", exp=None)
     dist = {}
     ncorr = nored = 0
     rounds = 1 if (replay or tier == "quick") else 8     # thorough: eight batches (memory), the sweep in the first
